@@ -620,6 +620,6 @@ MANIFEST = dict(
         "permutation invariance relate pairs of runtime inputs and are not decided."),
     level_note="Trusted: python ast; softmax(-inf) = 0 weight. F9 (bias_WK/bias_WV validated from bias_WQ) was found by G3 "
                "and repaired.",
-    technique="static analysis: reaching-definition (def-use) rules, dimension/size table agreement (softmax axis evaluated as a function of dim), argcheck idiom lint, argument binding; interpretation of the forward pass over exact values with a surrogate softmax",
+    technique="static analysis: reaching-definition (def-use) rules, dimension/size table agreement (softmax axis evaluated as a function of dim), argcheck idiom lint, argument binding; interpretation of the forward pass over exact values with a surrogate softmax; check_input of both classes interpreted for three different widths; shared-query rows (an in-place operation cannot broadcast its receiver)",
     design_ref="DESIGN.md section 4 C20",
 )
